@@ -21,6 +21,7 @@ import (
 	"io/fs"
 	"os"
 	"path/filepath"
+	"syscall"
 )
 
 const (
@@ -69,8 +70,9 @@ type scanSpecFunc func(string, int, *Spec, error) error
 // returning an error. ScanSpecDirs silently skips any subdirectories.
 func scanSpecDirs(dirs []string, scanFn scanSpecFunc) error {
 	var (
-		spec *Spec
-		err  error
+		spec     *Spec
+		err      error
+		outOfFds error
 	)
 
 	for priority, dir := range dirs {
@@ -91,6 +93,11 @@ func scanSpecDirs(dirs []string, scanFn scanSpecFunc) error {
 			// first call from Walk is for dir itself, others we skip
 			if info.IsDir() {
 				if path == dir {
+					// remember if we could not read the directory for lack of
+					// file descriptors, the caller might want to retry later
+					if isOutOfDescriptors(err) {
+						outOfFds = err
+					}
 					return nil
 				}
 				return filepath.SkipDir
@@ -115,5 +122,11 @@ func scanSpecDirs(dirs []string, scanFn scanSpecFunc) error {
 		}
 	}
 
-	return nil
+	return outOfFds
+}
+
+// isOutOfDescriptors tells if the error is about a (transient) shortage of
+// file descriptors.
+func isOutOfDescriptors(err error) bool {
+	return errors.Is(err, syscall.EMFILE) || errors.Is(err, syscall.ENFILE)
 }
